@@ -23,6 +23,7 @@ import os
 from ..common import hexs, unhexs
 from .. import common
 from .. import itpgen as G
+from .. import topx
 
 RULE = ("shipped: every *.itp under the repo; text: 20 directed edge files + generated files (1-10 sections in any order, 30% repeated "
         "names, content lines valid for the section kind with no/blank/simple/multiple/#-leading trailing "
@@ -216,9 +217,13 @@ def generate(ctx):
         c = G.gen_itp_text(rng)
         s, l = rng.choice(flat)
         yield {"kind": "malformed", "data": c["data"].rstrip("\r\n") + f"\n[ {s} ]\n{l}\n"}
+    # work package WPE: typed line classes (getters, setters, edits then write / re-read), ItpSection, file objects
+    yield from topx.gen_c16(ctx)
 
 
 def evaluate(ctx, case):
+    if case["kind"] in ("typed", "section", "float", "atomline"):
+        return topx.eval_c16(ctx, case)
     if case["kind"] == "shipped":
         path = os.path.join(_repo(), case["path"])
         data = open(path, "rb").read()
